@@ -47,6 +47,8 @@ type Link struct {
 	// without waiting for the watchdog.
 	waiting [2]bool
 	gone    [2]bool // the endpoint's calls have returned: it will not write any more
+	failW   [2]bool // writes of this end fail
+	eofR    [2]bool // reads of this end see EOF after the bytes in flight
 	Quiet   chan struct{}
 	quietOn bool
 }
@@ -128,7 +130,7 @@ func (e *end) Read(p []byte) (int, error) {
 			l.buf[in] = l.buf[in][n:]
 			return n, nil
 		}
-		if l.closed[1-e.side] || l.cut {
+		if l.closed[1-e.side] || l.cut || l.eofR[e.side] {
 			return 0, io.EOF
 		}
 		l.waiting[e.side] = true
@@ -146,7 +148,7 @@ func (e *end) Write(p []byte) (int, error) {
 	if l.closed[e.side] {
 		return 0, errClosed
 	}
-	if l.closed[1-e.side] || l.cut {
+	if l.closed[1-e.side] || l.cut || l.failW[e.side] {
 		return 0, io.ErrClosedPipe
 	}
 	if l.raw[d] {
@@ -220,4 +222,29 @@ func (l *Link) Idle(clientSide bool) bool {
 	l.mu.Lock()
 	defer l.mu.Unlock()
 	return l.waiting[side] && len(l.buf[1-side]) == 0
+}
+
+// Inject puts bytes in flight in direction dir as if the peer had written them (scripted peer).
+func (l *Link) Inject(dir int, b []byte) {
+	l.mu.Lock()
+	l.buf[dir] = append(l.buf[dir], b...)
+	l.cond.Broadcast()
+	l.mu.Unlock()
+}
+
+// FailWrites makes every later Write of an end (0 client, 1 server) fail while its reads go on
+// (the peer reset the connection / the write side is gone).
+func (l *Link) FailWrites(side int) {
+	l.mu.Lock()
+	l.failW[side] = true
+	l.mu.Unlock()
+}
+
+// EOFReads makes the reads of an end return EOF once the bytes in flight are consumed, while
+// its writes still succeed (the peer half-closed).
+func (l *Link) EOFReads(side int) {
+	l.mu.Lock()
+	l.eofR[side] = true
+	l.cond.Broadcast()
+	l.mu.Unlock()
 }
